@@ -988,10 +988,9 @@ def run_batch(seedkey, bi, per=14, nval=4, struct_gen=None):
                     res["viol"].append(("O%d#%d" % (j, vi), abi_name, "Rust -> JS: Option<%s> read back as %s, the stored value is %s" % (ty, json.dumps(r.get("got"))[:200], json.dumps(expj)[:200]), w,
                                         "option-arm" if arm_mismatch(r.get("got"), expj) else None))
                 ga = [a for a in r.get("allocs", []) if a[0] == r.get("retptr")]
-                # observation, not part of the property (which speaks of structs): the backend sizes this buffer as payload + 1 without
-                # padding to the alignment (Option<u32>: 5 bytes for an 8-byte value); only the part JS reads is required here
-                if not ga or ga[0][1] < isz + 1 or ga[0][2] != ol["align"]:
-                    res["viol"].append(("O%d#%d" % (j, vi), abi_name, "Rust -> JS: Option<%s> receive buffer allocated as %s, too small or misaligned for (payload %d + flag, align %d)" % (ty, ga[0][1:] if ga else None, isz, ol["align"]), w))
+                # the buffer receives a whole DiplomatOption<T> from Rust (padding included): it must have that value's size and alignment
+                if not ga or ga[0][1] != ol["size"] or ga[0][2] != ol["align"]:
+                    res["viol"].append(("O%d#%d" % (j, vi), abi_name, "Rust -> JS: Option<%s> receive buffer allocated as (size, align) = %s, rustc's DiplomatOption<%s> is (%d, %d)" % (ty, ga[0][1:] if ga else None, ty, ol["size"], ol["align"]), w))
     return res
 
 
@@ -1035,13 +1034,20 @@ def main(tier, seed):
             if "option flag byte" in msg and "(None)" in msg and "JS left cd" in msg:
                 key = {"signature": "spec ABI: None option field leaves the flag byte unwritten"}
             chk.violation("b%d_%s_%s" % (bi, cid.replace("#", "v"), abi), "js.abi=%s struct %s: %s" % (abi, cid, msg), w, key=key)
-    chk.evaluations = stats["option_param_checks"] + stats["write_checks_spec"] + stats["flatten_checks_legacy"] + stats["read_checks"] + stats["receive_buffers_checked"]
+    # ---- end-to-end: the generated JS (spec ABI) against a real wasm32 module of the same bridge (real proc macro, real runtime):
+    # what Rust *receives* and what JS *reads back* for every struct that crosses, in both directions, inside whole call histories
+    import api
+    e2e = api.js_e2e_leg(chk, seed + 8800, 640 if thorough else 64, "c08e2e", ncalls=(40 if thorough else 30))
+    chk.evaluations = stats["option_param_checks"] + stats["write_checks_spec"] + stats["flatten_checks_legacy"] + stats["read_checks"] + stats["receive_buffers_checked"] + e2e["calls"]
     chk.distinct = shapes
     chk.rule = ("seeded structs with 1-8 fields over 14 primitives, an enum with negative/extreme discriminants, opaque pointers (optional and not), slices of "
                 "u8/u16/i32/f64 and UTF-8/UTF-16 strings, nested structs (two levels) and DiplomatOption<prim|enum|struct>, any field order; 4 values per struct "
-                "(boundary integers, > 2^53 in 64-bit fields, both option arms). Ground truth = rustc on a mirror with 32-bit pointers. distinct_nontrivial = "
+                "(boundary integers, > 2^53 in 64-bit fields, both option arms). Ground truth = rustc on a mirror with 32-bit pointers. End-to-end leg: generated bridges "
+                "(grammar generator, JS profile) compiled to wasm32 with the real proc macro and runtime (hand-built no_std sysroot, guard bytes around every "
+                "allocation), driven through the generated spec-ABI JS by scripted call histories in node; the merged event log (Rust bodies log what they received "
+                "and return, the driver logs what it reads back) must equal the script's prediction. distinct_nontrivial = "
                 "distinct field-kind sequences.")
-    chk.extra = dict(stats, batches=nbatch)
+    chk.extra = dict(stats, batches=nbatch, end_to_end_wasm32=e2e)
     rng = random.Random("c08/%s/%s" % (seed, 0))
     ex = gen_structs(rng, 3)
     for k, f in enumerate(ex[:2]):
